@@ -17,6 +17,7 @@ import OFV.Proofs.C13Sound2
 import OFV.Proofs.C13RG
 import OFV.Proofs.C13Mel
 import OFV.Proofs.C13Bose
+import OFV.Proofs.C13Herm2
 import Mathlib.Tactic.NormNum
 
 namespace OFV.C13
@@ -265,6 +266,16 @@ theorem bose_hubbard_sound (tol : Rat) (φ : Term → GQ) (a : HubbardArgs)
         ((-a.t) * φ (hopKey e.1 e.2) + (-a.t) * φ (hopKey e.2 e.1)) + a.h * φ (nnKey e.1 e.2)) +
       gsumL ((List.range (a.x * a.y)).map (boseSiteDen tol φ a)) :=
   bose_hubbard_sound' tol φ a hex ht hreg
+
+/-- **hermitian_generators (spinful `fermi_hubbard`)**: real `t`, `U`, `μ`, `h`, every lattice size: every matrix element
+of the Model's output computed with the Spec action satisfies `⟦H⟧_{φ†} = conj ⟦H⟧_φ` for `φ = mel s t`
+(`φ†(τ) = conj φ(τ†)`) — the reordering `n_↑ n_↓ = n_↓ n_↑` is discharged on the Spec -/
+theorem spinful_hubbard_hermitian (tol : Rat) (s t : Nat) (a : HubbardArgs) (hphs : a.phs = false)
+    (hex : ExactSum tol [] ((List.range (a.x * a.y)).flatMap (spinfulPieces tol a)))
+    (ht : a.t.conj = a.t) (hu : a.u.conj = a.u) (hmu : a.mu.conj = a.mu) (hh : a.h.conj = a.h)
+    (hreg : GQ.isSmall tol (-a.t) = true → -a.t = 0) :
+    den (adjF (mel s t)) (spinfulFermiHubbard tol a) = (den (mel s t) (spinfulFermiHubbard tol a)).conj :=
+  spinful_hubbard_hermitian' tol (mel s t) a hphs hex ht hu hmu hh hreg (fun i => mel_nn_comm s t (2 * i) (2 * i + 1))
 
 /-- **RichardsonGaudin, documented form** (every `n`, every `g`): in the exact regime (`ExactRG`: every `+` / `sum` step
 of `qubit_operator`) the Model's `RichardsonGaudin(g, n).qubit_operator` denotes
